@@ -83,6 +83,10 @@ impl Bounds {
     pub(crate) fn div_by(self, divisor: f64) -> Self {
         if divisor == 0.0 {
             Self::UNBOUNDED
+        } else if divisor.is_infinite() {
+            // a value (always finite) over an infinite constant is 0; dividing an
+            // infinite bound by it would give NaN
+            Self::singleton(0.0)
         } else if divisor > 0.0 {
             Self::new(
                 quotient_down(self.lower, divisor),
